@@ -104,6 +104,16 @@ def main():
     if harmless:  # a harmless refactoring: every check should stay at exit 0
         res["alarm"] = any(c["rc"] != 0 for c in res.get("checks", {}).values())
     dst = os.path.join(ROOT, "seeded", name)
+    try:  # keep the recorded results of checks that were not re-run this time
+        prev = json.load(open(os.path.join(dst, "meta.json")))
+        if open(os.path.join(dst, "patch.diff")).read() == open(patch).read():
+            for p, c in prev.get("checks", {}).items():
+                res["checks"].setdefault(p, c)
+            res["detected"] = any(c["rc"] == 1 and c.get("violation") for c in res["checks"].values())
+            if harmless:
+                res["alarm"] = any(c["rc"] != 0 for c in res["checks"].values())
+    except Exception:
+        pass
     shutil.rmtree(dst, ignore_errors=True)
     os.makedirs(dst)
     shutil.copyfile(patch, os.path.join(dst, "patch.diff"))
